@@ -61,6 +61,72 @@ func genKey(t *rapid.T, name string) int {
 	return rapid.IntRange(0, 399).Draw(t, name)
 }
 
+// keyTable describes a table whose rule computes the shard from a key with a shard
+// function object shared by every session.
+type keyTable struct {
+	db, table, col, kind string // kind: int | smallint | str | year | month | day
+}
+
+var keyTables = []keyTable{
+	{dbShard, "t_hash", "id", "int"}, {dbShard, "t_hash2", "id", "int"}, {dbShard, "t_mod", "id", "int"}, {dbShard, "t_range", "id", "smallint"},
+	{dbShard, "t_year", "d", "year"}, {dbShard, "t_month", "d", "month"}, {dbShard, "t_day", "d", "day"},
+	{dbMycat, "t_mm", "id", "int"}, {dbMycat, "t_ml", "id", "int"}, {dbMycat, "t_mur1", "id", "int"}, {dbMycat, "t_mur2", "id", "int"},
+	{dbMycat, "t_mur3", "name", "str"}, {dbMycat, "t_str", "name", "str"}, {dbMycat, "t_pad", "id", "int"},
+}
+
+// genKeyLit draws a key literal of the table's key type; the domain is wide so that
+// concurrent sessions hand different inputs to the same shard function.
+func genKeyLit(t *rapid.T, kt keyTable, name string) string {
+	switch kt.kind {
+	case "smallint":
+		return fmt.Sprint(rapid.IntRange(0, 399).Draw(t, name))
+	case "str":
+		n := rapid.IntRange(1, 12).Draw(t, name+"_n")
+		b := make([]byte, n)
+		for i := range b {
+			b[i] = "abcdefghijklmnopqrstuvwxyz0123456789_"[rapid.IntRange(0, 36).Draw(t, name+"_c")]
+		}
+		return "'" + string(b) + "'"
+	case "year":
+		return fmt.Sprintf("'%d-%02d-%02d'", rapid.IntRange(2016, 2020).Draw(t, name+"_y"), rapid.IntRange(1, 12).Draw(t, name+"_m"), rapid.IntRange(1, 28).Draw(t, name+"_d"))
+	case "month":
+		return fmt.Sprintf("'2020-%02d-%02d'", rapid.IntRange(1, 6).Draw(t, name+"_m"), rapid.IntRange(1, 28).Draw(t, name+"_d"))
+	case "day":
+		return fmt.Sprintf("'2020-01-%02d'", rapid.IntRange(1, 10).Draw(t, name+"_d"))
+	}
+	if rapid.IntRange(0, 3).Draw(t, name+"_big") == 0 {
+		return fmt.Sprint(rapid.Int64Range(0, 1<<40).Draw(t, name))
+	}
+	return fmt.Sprint(rapid.IntRange(0, 99999).Draw(t, name))
+}
+
+// genKeyOp draws a statement that is routed by computing the shard of one or more keys.
+func genKeyOp(t *rapid.T, db string) op {
+	kt := rapid.SampledFrom(keyTables).Draw(t, "kt")
+	ref := kt.table
+	if kt.db != db || rapid.IntRange(0, 4).Draw(t, "kqual") == 0 {
+		ref = kt.db + "." + kt.table
+	}
+	o := op{Kind: "query", DB: db, Class: "keyroute_" + kt.table}
+	k := genKeyLit(t, kt, "key")
+	other := "v"
+	switch rapid.IntRange(0, 6).Draw(t, "kform") {
+	case 0, 1:
+		o.SQL = fmt.Sprintf("SELECT * FROM %s WHERE %s = %s", ref, kt.col, k)
+	case 2:
+		o.SQL = fmt.Sprintf("SELECT * FROM %s WHERE %s IN (%s, %s, %s)", ref, kt.col, k, genKeyLit(t, kt, "key2"), genKeyLit(t, kt, "key3"))
+	case 3:
+		o.SQL = fmt.Sprintf("INSERT INTO %s (%s, %s) VALUES (%s, 'x')", ref, kt.col, other, k)
+	case 4:
+		o.SQL = fmt.Sprintf("INSERT INTO %s (%s, %s) VALUES (%s, 'a'), (%s, 'b')", ref, kt.col, other, k, genKeyLit(t, kt, "key2"))
+	case 5:
+		o.SQL = fmt.Sprintf("UPDATE %s SET %s = 'y' WHERE %s = %s", ref, other, kt.col, k)
+	default:
+		o.SQL = fmt.Sprintf("DELETE FROM %s WHERE %s IN (%s, %s)", ref, kt.col, k, genKeyLit(t, kt, "key2"))
+	}
+	return o
+}
+
 // genOp draws one statement for a session whose current database is db.
 func genOp(t *rapid.T, db string) op {
 	k := genKey(t, "k")
@@ -84,7 +150,9 @@ func genOp(t *rapid.T, db string) op {
 		}
 		return tdb, table
 	}
-	switch kind := rapid.IntRange(0, 19).Draw(t, "kind"); {
+	switch kind := rapid.IntRange(0, 23).Draw(t, "kind"); {
+	case kind >= 20: // routed by the shard function of some rule
+		return genKeyOp(t, db)
 	case kind <= 6: // statement on a table without a rule
 		tdb, table := plainTable()
 		ref := qualify(tdb, table)
@@ -256,8 +324,17 @@ func genWorkload(t *rapid.T) workload {
 		if home == "" && rapid.IntRange(0, 3).Draw(t, "nodb") != 0 {
 			home = rapid.SampledFrom(plainDBs).Draw(t, "home2")
 		}
-		m := rapid.IntRange(1, 8).Draw(t, "ops")
 		var ops []op
+		if rapid.IntRange(0, 2).Draw(t, "keysession") == 0 {
+			// a session that only routes by key, with many different keys
+			m := rapid.IntRange(8, 24).Draw(t, "kops")
+			for j := 0; j < m; j++ {
+				ops = append(ops, genKeyOp(t, home))
+			}
+			w.Sessions = append(w.Sessions, ops)
+			continue
+		}
+		m := rapid.IntRange(1, 8).Draw(t, "ops")
 		for j := 0; j < m; j++ {
 			db := home
 			if rapid.IntRange(0, 5).Draw(t, "use") == 0 {
@@ -373,7 +450,7 @@ func fixtureOK(t *testing.T) {
 func TestC07Plans(t *testing.T) {
 	fixtureOK(t)
 	pbt.Run(t, pbt.Spec{ID: "C07", Sub: "plans", Quick: 400, Thorough: 4000,
-		Rule: "2-16 sessions with 1-8 statements each, repeated 1-30 times behind a start barrier against one router (hash/mod/range/month/linked/global/mycat_mod/mycat_long rules, three databases without rules, one plain table in the sharded database); statements: SELECT/INSERT/REPLACE/UPDATE/DELETE/EXPLAIN/JOIN/UNION/subquery on sharded (hash, mod, range, month), linked, global, mycat (mod, long) and rule-less tables, qualified or not, with LIMIT offset, GROUP BY/aggregates, DISTINCT, /*master*/ and optimizer hints, DATABASE()-restricted mycat selects (=, reversed, IN, quoted/bare/backquoted, every database), mycat sql hints, last_insert_id, and field-list lookups; every plan is also recomputed alone after the workload and the routing table is compared before/after; non-trivial = two sessions resolve the default rule with different databases, or a sharded statement in one session overlaps an unsharded one in another",
+		Rule: "2-16 sessions with 1-8 statements each (a third of the sessions: 8-24 statements that only route by key - point selects, IN lists, single and multi-row inserts, updates, deletes with distinct int/string/date keys - on tables of every rule type: hash x2, mod, range, date_year/month/day, mycat_mod/long/murmur x3/string/padding_mod), repeated 1-30 times behind a start barrier against one router (hash/mod/range/month/linked/global/mycat_mod/mycat_long rules, three databases without rules, one plain table in the sharded database); statements: SELECT/INSERT/REPLACE/UPDATE/DELETE/EXPLAIN/JOIN/UNION/subquery on sharded (hash, mod, range, month), linked, global, mycat (mod, long) and rule-less tables, qualified or not, with LIMIT offset, GROUP BY/aggregates, DISTINCT, /*master*/ and optimizer hints, DATABASE()-restricted mycat selects (=, reversed, IN, quoted/bare/backquoted, every database), mycat sql hints, last_insert_id, and field-list lookups; every plan is also recomputed alone after the workload and the routing table is compared before/after; non-trivial = two sessions resolve the default rule with different databases, or a sharded statement in one session overlaps an unsharded one in another",
 		Floor: 0.5}, genWorkload, checkPlans)
 }
 
